@@ -320,7 +320,7 @@ def main() -> int:
             if "unterminated string" in msg:
                 ev.count("string_literal_broken_by_control_character(C05)")
                 continue  # the derived identifier is fine; the wire-name *string literal* is broken: C05's newline class
-            if set(pre) <= {"_"} and re.search(r"^class( \d\w*)?( ?\(.*\))?:|^from \.+(\d\w*)?\.? import|^from \.+(models\.)?_+ import( \d\w*)?( |$)|import( \d\w*)?$|models/(_|\d\w*)\.py|^(\d\w*) = ", (text or "") + " " + rel):
+            if set(pre) <= {"_"} and (re.search(r"^class( \d\w*)?( ?\(.*\))?:|^from \.+(\d\w*)?\.? import|^from \.+(models\.)?_+ import( \d\w*)?( |$)|import( \d\w*)?$|^(\d\w*) = ", (text or "").strip()) or re.search(r"models/(_|\d\w*)\.py", rel)):
                 vd.violation("syntax_error:prefix_lost:underscore_only_prefix", f"{rel}: {msg}: {text}", w)
                 continue
             vd.violation(f"syntax_error:{slot if kind == 'name' else 'collision:' + slot}", f"{rel}: {msg}: {text}", w)
